@@ -1315,6 +1315,13 @@ impl Interp {
                     (V::Str(x), V::Str(y)) => Rc::ptr_eq(x, y),
                     (V::List(x), V::List(y)) => Rc::ptr_eq(x, y) || (x.is_empty() && y.is_empty()),
                     (V::Lambda(x), V::Lambda(y)) => Rc::ptr_eq(x, y),
+                    // eq? compares fixnums by value; integers beyond Guile's fixnum range (62 bits) are heap
+                    // objects, and two separately obtained ones are not eq? (eqv? / = compare them by value)
+                    (V::Int(x), V::Int(y)) if name == "eq?" && (*x >= (1i128 << 61) || *x < -(1i128 << 61)) => {
+                        let _ = y;
+                        false
+                    }
+                    (V::Rat(_, _), V::Rat(_, _)) if name == "eq?" => false,
                     (x, y) => equal(x, y),
                 }))
             }
